@@ -1,5 +1,6 @@
 import SygmaModel.Drv.Util
 import SygmaModel.Model.C02
+import SygmaModel.Model.C14
 namespace Sygma.Drv.C02
 open Sygma.C02 Sygma.Keccak
 
@@ -75,6 +76,67 @@ def handle (op : String) (args : List String) (impl : String) : Option Verdict :
     -- the batch the contract receives (and hashes) is the batch that was hashed for signing, in order; signature unchanged
     let m := ps ++ "|" ++ sg
     return ⟨m, impl == m, s!"evmcall:n={min pl.length 3}"⟩
+  | "watchsig", [kind, n, script, gas] => some <| Id.run do
+    let some n := n.toNat? | return bad
+    let sweeps := items script "/"
+    let members := joinOr ((List.range n).map toString) ","
+    -- the watch loop ends as "already executed" at the first sweep that finds every member executed; otherwise the
+    -- signature arrives after the scripted sweeps and the batch that was handed in (= hashed) is what is submitted
+    let out := watch (List.range n) (sweeps.map fun w => w.toList.map (· == 'e'))
+    let closes := out == .closed
+    let g := if kind = "evm" then gas else "-"
+    let m := (match out with
+      | .closed => "closed"
+      | .submitted b => s!"sub:{joinOr (b.map toString) ","}/{g}/65") ++ s!"|caller={members}"
+    let ok := match impl.splitOn "|" with
+      | [what, caller] =>
+        caller == s!"caller={members}" &&
+          (what == "closed" || (what.startsWith "sub:" && (((what.drop 4).toString.splitOn "/").headD "") == members && (what.splitOn ";").length == 1))
+      | _ => false
+    return ⟨m, ok, s!"watchsig:{kind}:n={min n 4}:sweeps={min sweeps.length 3}:closes={closes}"⟩
+  | "execwatch", [kind, cap, tg, gases] => some <| Id.run do
+    let some cap := cap.toNat? | return bad
+    let some tg := tg.toNat? | return bad
+    let some gs := (items gases ",").mapM (fun g => if g = "n" then some none else g.toNat?.map some) | return bad
+    let ps : List Sygma.C14.PIn := gs.map fun g => ⟨g, false⟩
+    let hashed : List (List Nat) :=
+      if kind = "evm" then ((Sygma.C14.batches cap tg ps).map fun b => b.members.map (·.1)).filter (· ≠ [])
+      else [List.range ps.length]
+    let hs := (hashed.map fun b => joinOr (b.map toString) ",").mergeSort (fun a b => a ≤ b)
+    let polls := joinOr ((List.range ps.length).map fun i => s!"{i}:1") ","
+    let m := s!"H={joinOr hs ";"}|polls={polls}|ret=nil"
+    -- property on the implementation's output: every hashed batch is watched (and later submitted) as itself — the
+    -- members polled by the watchers are exactly the hashed members, each by exactly one watcher
+    let ok := match impl.splitOn "|" with
+      | [h, p, r] =>
+        let hashedMembers := (((h.drop 2).toString.splitOn ";").flatMap fun b => items b ",").mergeSort (fun a b => a ≤ b)
+        let polled := ((items (p.drop 6).toString ",").map fun e => e.splitOn ":")
+        let polledOnce := polled.all fun e => e.getD 1 "" == "1"
+        let polledMembers := (polled.map fun e => e.headD "").mergeSort (fun a b => a ≤ b)
+        h.startsWith "H=" && p.startsWith "polls=" && polledOnce && polledMembers == hashedMembers && r == "ret=nil"
+      | _ => false
+    return ⟨m, ok, s!"execwatch:{kind}:n={min ps.length 4}:batches={min hashed.length 4}"⟩
+  | "bseq", [kind, chain, addr, handler, steps, batches] => some <| Id.run do
+    let some c := chain.toNat? | return bad
+    let some a := fromHex addr | return bad
+    let some _ := fromHex handler | return bad
+    let some bs := (batches.splitOn "/").mapM parseProps | return bad
+    let st := items steps ","
+    let hashOf := fun (k : Nat) =>
+      let b := bs.getD (k % bs.length) []
+      if kind = "evm" then showH (evmProposalsHash keccak256 b c a) else showH (palletProposalsHash keccak256 b c)
+    let specOf := fun (k : Nat) =>
+      let b := bs.getD (k % bs.length) []
+      toHex (Spec.digest keccak256 c (if kind = "evm" then a else palletContract) b)
+    let pks := st.filterMap fun s => if s.startsWith "p" then (s.drop 1).toString.toNat? else none
+    let nh := if kind = "evm" then (st.filter (· == "h")).length else 0
+    let addrOut := if kind = "evm" then addr else "-"
+    let m := joinOr (pks.map hashOf) "," ++ "|addr=" ++ addrOut ++ "|h=" ++ joinOr (List.replicate nh handler) ","
+    -- property: whatever happened to the object before, each digest is the contract's for (chain id, bridge address, batch)
+    let ok := match impl.splitOn "|" with
+      | [ds, ad, _] => ad == "addr=" ++ addrOut && (if c < 2 ^ 63 then items ds "," == pks.map specOf else items ds "," == pks.map hashOf)
+      | _ => false
+    return ⟨m, ok, s!"bseq:{kind}:steps={min st.length 6}:lookups={min nh 2}:hashes={min pks.length 3}"⟩
   | "recover", _ => some ⟨"ok", impl == "ok", "recover(test)"⟩
   | _, _ => none
 where
